@@ -887,6 +887,9 @@ class Gen:
         # make sure every case expands something
         lines.append(self.text_line())
         lines.append(self.join(self.call()) + ' ;')
+        if r.random() < 0.2:
+            self.case.main, self.case.cpp = 'main.cpp', True       # same text preprocessed as C++
+            self.f.add('c++-source')
         self.case.files[self.case.main] = '\n'.join(lines) + '\n'
         return self.case
 
